@@ -2217,6 +2217,11 @@ PIP_Solution_Node::row_sign(const Row& x,
       sign = NEGATIVE;
     }
   }
+  if (sign == NEGATIVE && x.get(0) == 0) {
+    // The row has no constant term: it is zero (rather than negative)
+    // when all the parameters occurring in it are zero.
+    return MIXED;
+  }
   return sign;
 }
 
